@@ -16,7 +16,7 @@ pub fn prop11() -> Prop {
                are placed at random user addresses (including right below xFE00). The machine is stepped until PC is back at the word after the TRAP in user mode (bounded). Contract oracle, independent of the reference machine: display delta = exactly the expected bytes \
                (R0 low byte; string up to the zero word; packed low-then-high up to the first zero byte; 'Input character: ' + byte), keyboard consumed = 1 for GETC/IN else 0, R0 = the byte for GETC/IN, every other register, the whole PSR and every word of x3000-xFDFF unchanged. \
                HALT: run() returns Ok with hit_halt(), no output, and the instruction after it never runs. Non-trivial = every call; distinct = (trap, registers, string) hash.",
-        assumptions: &["keyboard has at least one byte queued when GETC/IN is called (otherwise the routine polls forever by design)", "PUTS emits the low byte of each word up to the first all-zero word (a quarter of the PUTS strings carry junk in the high byte)"],
+        assumptions: &["GETC/IN get their key either from the queue or, in a quarter of the calls, a bounded number of steps after the call started polling (otherwise the routine polls forever by design)", "PUTS emits the low byte of each word up to the first all-zero word (a quarter of the PUTS strings carry junk in the high byte)"],
         run: run11, guard: guard11,
         level_text: "Runtime contract monitoring of the real OS image executing on the real simulator, tens of thousands (quick) to millions (thorough) of trap calls with randomized machine state.",
         level_note: "Only the six documented traps; contract written from the property text, not from the OS source.",
@@ -40,8 +40,9 @@ pub fn prop12() -> Prop {
 }
 
 fn mk_sim(real: bool, fill: u16, kbd: &[u8]) -> (Simulator, BufferedKeyboard, BufferedDisplay) { mk_sim_cfg(real, fill, kbd, false, false) }
-fn mk_sim_cfg(real: bool, fill: u16, kbd: &[u8], strict: bool, ign: bool) -> (Simulator, BufferedKeyboard, BufferedDisplay) {
-    let mut sim = Simulator::new(SimFlags { use_real_traps: real, strict, ignore_privilege: ign, machine_init: MachineInitStrategy::Known { value: fill }, ..Default::default() });
+fn mk_sim_cfg(real: bool, fill: u16, kbd: &[u8], strict: bool, ign: bool) -> (Simulator, BufferedKeyboard, BufferedDisplay) { mk_sim_full(real, fill, kbd, strict, ign, false) }
+fn mk_sim_full(real: bool, fill: u16, kbd: &[u8], strict: bool, ign: bool, dbg: bool) -> (Simulator, BufferedKeyboard, BufferedDisplay) {
+    let mut sim = Simulator::new(SimFlags { use_real_traps: real, strict, ignore_privilege: ign, debug_frames: dbg, machine_init: MachineInitStrategy::Known { value: fill } });
     let kb = BufferedKeyboard::default(); kb.get_buffer().write().unwrap().extend(kbd.iter().copied()); sim.device_handler.set_keyboard(kb.clone());
     let ds = BufferedDisplay::default(); sim.device_handler.set_display(ds.clone());
     (sim, kb, ds)
@@ -57,7 +58,14 @@ fn run11(ctx: &mut Ctx) {
         // value, still uninitialized): the routines save and restore them without using them, so the contract is unchanged
         let strict = rng.chance(1, 4);
         let fill = rng.u16();
-        let (mut sim, kb, ds) = mk_sim_cfg(real, fill, &kbd, strict, false);
+        // a quarter of the non-strict calls run with privilege checks ignored (the stack switch depends on the PSR, not on the flag)
+        let ign = !strict && rng.chance(1, 4);
+        // a quarter of the GETC/IN calls find the queue empty and get their key only after some polling; in half of those the keyboard's
+        // interrupt-enable bit is set (KBSR reads x4000 while empty) with the processor priority at or above the keyboard's, so no interrupt is taken
+        let late_key = (trap == 0x20 || trap == 0x23) && rng.chance(1, 4);
+        let late_ie = late_key && rng.bool();
+        let late_after = 3 + rng.below(80);
+        let (mut sim, kb, ds) = mk_sim_cfg(real, fill, if late_key { &[] } else { &kbd }, strict, ign);
         // where the call sits
         let a: u16 = match rng.below(5) { 0 => 0x3000, 1 => 0xFDFE, _ => 0x3000 + rng.below(0xCDF0) as u16 };
         sim.mem[a] = Word::new_init(0xF000 | trap);
@@ -78,7 +86,8 @@ fn run11(ctx: &mut Ctx) {
             *r = rng.u16(); sim.reg_file[reg(i)].set(*r);
         }
         if trap == 0x22 || trap == 0x24 { regs[0] = s_addr; sim.reg_file[reg(0)].set(s_addr); }
-        let psr = 0x8000 | ((rng.below(8) as u16) << 8) | *rng.pick(&[1u16, 2, 4]);
+        let psr = 0x8000 | ((if late_ie { 4 + rng.below(4) as u16 } else { rng.below(8) as u16 }) << 8) | *rng.pick(&[1u16, 2, 4]);
+        if late_ie { sim.write_mem(0xFE00, Word::new_init(0x4000), priv_ctx()).unwrap(); }
         sim.write_mem(0xFFFC, Word::new_init(psr), priv_ctx()).unwrap();
         sim.pc = a;
         let before: Vec<u16> = (0x3000..0xFE00u16).map(|x| sim.mem[x].get()).collect();
@@ -86,7 +95,7 @@ fn run11(ctx: &mut Ctx) {
         let tag = if real { "real" } else { "virtual" };
         ctx.eval();
         ctx.nontrivial(crate::rng::hash_bytes(format!("{trap}{regs:?}{bytes:?}{a}{s_addr}").as_bytes()));
-        let case = || Json::obj().set("trap", name).set("real_traps", real).set("call_address", format!("x{a:04X}")).set("regs", format!("{regs:04X?}")).set("psr", format!("x{psr:04X}")).set("kbd", format!("{kbd:?}")).set("strict", strict).set("unwritten_register_mask", unwritten as u64).set("string_at", format!("x{s_addr:04X}")).set("string_bytes", format!("{bytes:?}"));
+        let case = || Json::obj().set("trap", name).set("real_traps", real).set("call_address", format!("x{a:04X}")).set("regs", format!("{regs:04X?}")).set("psr", format!("x{psr:04X}")).set("kbd", format!("{kbd:?}")).set("strict", strict).set("ignore_privilege", ign).set("key_arrives_after_step", if late_key { late_after as i64 } else { -1 }).set("kbd_interrupt_enable", late_ie).set("unwritten_register_mask", unwritten as u64).set("string_at", format!("x{s_addr:04X}")).set("string_bytes", format!("{bytes:?}"));
         if trap == 0x25 {
             let r = crate::monitor::guard(|| sim.run_with_limit(100_000));
             match r { Ok(Ok(())) if sim.hit_halt() => {}, other => { ctx.violation(&format!("halt-does-not-stop:{tag}"), format!("run() = {:?}, hit_halt = {}", other.map(|r| r.map_err(|e| err_kind(&e))).map_err(|p| p.msg), sim.hit_halt()), case()); return; } }
@@ -102,10 +111,12 @@ fn run11(ctx: &mut Ctx) {
             let r = crate::monitor::guard(|| sim.step_in());
             match r { Ok(Ok(())) => {}, Ok(Err(e)) => { ctx.violation(&format!("trap-fails:{name}:{tag}"), format!("step {steps} failed with {}", err_kind(&e)), case()); return; } Err(p) => { ctx.violation(&format!("panic-in-trap:{name}"), p.msg, case()); return; } }
             steps += 1;
+            if late_key && steps == late_after { kb.get_buffer().write().unwrap().extend(kbd.iter().copied()); }
             if sim.pc == a.wrapping_add(1) && !sim.psr().privileged() { break; }
             if steps > 20_000 { ctx.violation(&format!("trap-does-not-return:{name}:{tag}"), "no return to the caller within 20000 steps", case()); return; }
         }
         let disp = ds.get_buffer().read().unwrap().clone();
+        if late_key && steps < late_after { ctx.violation(&format!("returns-before-a-key-is-available:{name}"), format!("the routine returned after {steps} steps although the keyboard queue was still empty (the key arrives after step {late_after}); R0 = x{:04X}", sim.reg_file[reg(0)].get()), case()); return; }
         let consumed = kbd.len() - kb.get_buffer().read().unwrap().len();
         let (exp_disp, exp_consumed, exp_r0): (Vec<u8>, usize, Option<u16>) = match trap {
             0x20 => (vec![], 1, Some(kbd[0] as u16)),
@@ -126,6 +137,8 @@ fn run11(ctx: &mut Ctx) {
         if let Some(k) = (0..before.len()).find(|k| sim.mem[0x3000 + *k as u16].get() != before[*k]) { ctx.violation(&format!("user-memory-changed:{name}"), format!("mem[x{:04X}] changed", 0x3000 + k), case()); return; }
         ctx.count(&format!("calls.{name}.{tag}"));
         if strict && unwritten != 0 { ctx.count("calls.strict-with-unwritten-registers"); }
+        if ign { ctx.count("calls.ignore-privilege"); }
+        if late_key { ctx.count(if late_ie { "calls.key-arrives-late.interrupt-enable-set" } else { "calls.key-arrives-late" }); }
         if high_junk { ctx.count("strings.PUTS.words-with-high-byte-set"); }
         if zero_low_terminator { ctx.count("strings.PUTSP.terminated-by-zero-low-byte-with-nonzero-high-byte"); }
         if trap == 0x22 || trap == 0x24 { ctx.count(&format!("strings.{name}.len-{}", match slen { 0 => "0", 1 => "1", _ if slen % 2 == 1 => "odd", _ => "even" })); }
@@ -138,19 +151,25 @@ fn guard11(m: &Merged, _t: Tier) -> Vec<String> {
     need(m, &mut out, "strings.PUTSP.terminated-by-zero-low-byte-with-nonzero-high-byte", 20);
     need(m, &mut out, "strings.PUTS.words-with-high-byte-set", 20);
     need(m, &mut out, "calls.strict-with-unwritten-registers", 100);
+    for k in ["calls.ignore-privilege", "calls.key-arrives-late", "calls.key-arrives-late.interrupt-enable-set"] { need(m, &mut out, k, 50); }
     for n in ["PUTS", "PUTSP"] { for l in ["0", "1", "odd", "even"] { need(m, &mut out, &format!("strings.{n}.len-{l}"), 20); } }
     out
 }
 
-struct End { result: Result<(), String>, halted: bool, display: Vec<u8>, regs: [u16; 8], user: Vec<u16>, instrs: u64 }
-fn run_prog(text: &str, real: bool, fill: u16, kbd: &[u8], strict: bool, ign: bool) -> Option<End> {
-    let (mut sim, _kb, ds) = mk_sim_cfg(real, fill, kbd, strict, ign);
+struct End { result: Result<(), String>, halted: bool, display: Vec<u8>, regs: [u16; 8], user: Vec<u16>, instrs: u64,
+    /// the same after calling run once more on the stopped machine: (result, halted, display, R0-R5)
+    resumed: (Result<(), String>, bool, Vec<u8>, [u16; 6]) }
+fn run_prog(text: &str, real: bool, fill: u16, kbd: &[u8], strict: bool, ign: bool, dbg: bool) -> Option<End> {
+    let (mut sim, _kb, ds) = mk_sim_full(real, fill, kbd, strict, ign, dbg);
     let ast = lc3_ensemble::parse::parse_ast(text).ok()?;
     let obj = lc3_ensemble::asm::assemble(ast).ok()?;
     sim.load_obj_file(&obj).ok()?;
     let r = sim.run_with_limit(400_000);
     let display: Vec<u8> = { let g = ds.get_buffer().read().unwrap(); g.clone() };
-    Some(End { result: r.map_err(|e: SimErr| err_kind(&e).to_string()), halted: sim.hit_halt(), display, regs: std::array::from_fn(|i| sim.reg_file[reg(i)].get()), user: (0x3000..0xFE00u16).map(|a| sim.mem[a].get()).collect(), instrs: sim.instructions_run })
+    let mut end = End { result: r.map_err(|e: SimErr| err_kind(&e).to_string()), halted: sim.hit_halt(), display, regs: std::array::from_fn(|i| sim.reg_file[reg(i)].get()), user: (0x3000..0xFE00u16).map(|a| sim.mem[a].get()).collect(), instrs: sim.instructions_run, resumed: (Ok(()), false, vec![], [0; 6]) };
+    let r2 = sim.run_with_limit(50_000);
+    end.resumed = (r2.map_err(|e: SimErr| err_kind(&e).to_string()), sim.hit_halt(), ds.get_buffer().read().unwrap().clone(), std::array::from_fn(|i| sim.reg_file[reg(i)].get()));
+    Some(end)
 }
 
 fn run12(ctx: &mut Ctx) {
@@ -160,6 +179,7 @@ fn run12(ctx: &mut Ctx) {
         // never touching R6), an eighth with privilege checks ignored (halting programs only: with checks off a "faulting"
         // program can read the supervisor stack, which legitimately differs between the two settings)
         let (strict, ign) = match rng.below(8) { 0 | 1 => (true, false), 2 => (false, true), _ => (false, false) };
+        let dbg = rng.chance(1, 3); // frame recording must not change what the program does
         let opts = if strict { ProgOpts { faults: rng.chance(2, 5), strict_clean: true, no_stack: rng.bool(), ..ProgOpts::default() } }
             else if ign { ProgOpts { faults: false, unbalanced: false, ..ProgOpts::default() } }
             else { ProgOpts { faults: rng.chance(2, 5), unbalanced: rng.chance(1, 5), ..ProgOpts::default() } };
@@ -167,9 +187,9 @@ fn run12(ctx: &mut Ctx) {
         let kbd: Vec<u8> = (0..prog.kbd_needed + rng.usize(2)).map(|_| 1 + rng.below(255) as u8).collect();
         let fill = rng.u16();
         ctx.eval();
-        let case = || Json::obj().set("program", prog.text.as_str()).set("kbd", format!("{kbd:?}")).set("fill", fill).set("strict", strict).set("ignore_privilege", ign);
-        let Some(Some(v)) = ctx.no_panic("run(virtual)", case, || run_prog(&prog.text, false, fill, &kbd, strict, ign)) else { ctx.count("not-runnable"); return };
-        let Some(Some(r)) = ctx.no_panic("run(real)", case, || run_prog(&prog.text, true, fill, &kbd, strict, ign)) else { ctx.count("not-runnable"); return };
+        let case = || Json::obj().set("program", prog.text.as_str()).set("kbd", format!("{kbd:?}")).set("fill", fill).set("strict", strict).set("ignore_privilege", ign).set("debug_frames", dbg);
+        let Some(Some(v)) = ctx.no_panic("run(virtual)", case, || run_prog(&prog.text, false, fill, &kbd, strict, ign, dbg)) else { ctx.count("not-runnable"); return };
+        let Some(Some(r)) = ctx.no_panic("run(real)", case, || run_prog(&prog.text, true, fill, &kbd, strict, ign, dbg)) else { ctx.count("not-runnable"); return };
         ctx.nontrivial_str(&prog.text);
         match &v.result {
             Ok(()) if v.halted => {
@@ -177,7 +197,12 @@ fn run12(ctx: &mut Ctx) {
                 if r.display != v.display { ctx.violation("display-differs:halting", format!("real {:?} vs virtual {:?}", String::from_utf8_lossy(&r.display), String::from_utf8_lossy(&v.display)), case()); return; }
                 for i in 0..6 { if r.regs[i] != v.regs[i] { ctx.violation("registers-differ:halting", format!("R{i}: real x{:04X}, virtual x{:04X}", r.regs[i], v.regs[i]), case()); return; } }
                 if let Some(k) = (0..v.user.len()).find(|k| v.user[*k] != r.user[*k]) { ctx.violation("user-memory-differs:halting", format!("mem[x{:04X}]: real x{:04X}, virtual x{:04X}", 0x3000 + k, r.user[k], v.user[k]), case()); return; }
+                // once stopped, the machine stays stopped: another run call halts again at once, silently
+                for (tag, e) in [("virtual", &v), ("real", &r)] {
+                    if e.resumed.0.is_err() || !e.resumed.1 || e.resumed.2 != e.display || e.resumed.3[..] != e.regs[..6] { ctx.violation(&format!("resumed-run-not-silent:{tag}"), format!("running the halted {tag}-trap machine again: result {:?}, halted {}, display {:?} (was {:?}), R0-R5 {:04X?} (were {:04X?})", e.resumed.0, e.resumed.1, String::from_utf8_lossy(&e.resumed.2), String::from_utf8_lossy(&e.display), e.resumed.3, &e.regs[..6]), case()); return; }
+                }
                 ctx.count("pairs.halting");
+                if dbg { ctx.count("pairs.debug-frames-on"); }
                 if strict { ctx.count(if opts.no_stack { "pairs.halting.strict.R6-never-written" } else { "pairs.halting.strict" }); }
                 if ign { ctx.count("pairs.halting.ignore-privilege"); }
                 if r.instrs <= v.instrs { ctx.violation("real-halt-runs-no-os-code", "the real run executed no more instructions than the virtual one, so HALT did not go through the OS", case()); return; }
@@ -188,6 +213,8 @@ fn run12(ctx: &mut Ctx) {
                 if r.result.is_err() || !r.halted { ctx.violation(&format!("real-run-does-not-halt-after-exception:{kind}"), format!("real run: {:?}, halted {}", r.result, r.halted), case()); return; }
                 let mut want = v.display.clone(); want.extend_from_slice(msg);
                 if r.display != want { ctx.violation(&format!("exception-message-wrong:{kind}"), format!("real display {:?}, expected {:?}", String::from_utf8_lossy(&r.display), String::from_utf8_lossy(&want)), case()); return; }
+                if r.resumed.0.is_err() || !r.resumed.1 || r.resumed.2 != r.display { ctx.violation("resumed-run-not-silent:real-after-exception", format!("running the real-trap machine again after the OS halted it: result {:?}, halted {}, display {:?} (was {:?})", r.resumed.0, r.resumed.1, String::from_utf8_lossy(&r.resumed.2), String::from_utf8_lossy(&r.display)), case()); return; }
+                if dbg { ctx.count("pairs.debug-frames-on"); }
                 ctx.count(&format!("pairs.faulting.{kind}"));
                 if strict { ctx.count("pairs.faulting.strict"); }
             }
@@ -200,7 +227,7 @@ fn run12(ctx: &mut Ctx) {
 fn guard12(m: &Merged, _t: Tier) -> Vec<String> {
     let mut out = vec![];
     need(m, &mut out, "pairs.halting", 500);
-    for k in ["pairs.halting.strict", "pairs.halting.strict.R6-never-written", "pairs.halting.ignore-privilege", "pairs.faulting.strict"] { need(m, &mut out, k, 30); }
+    for k in ["pairs.halting.strict", "pairs.halting.strict.R6-never-written", "pairs.halting.ignore-privilege", "pairs.faulting.strict", "pairs.debug-frames-on"] { need(m, &mut out, k, 30); }
     for k in ["AccessViolation", "PrivilegeViolation", "IllegalOpcode", "InvalidInstrFormat"] { need(m, &mut out, &format!("pairs.faulting.{k}"), 20); }
     for u in ["PUTS", "PUTSP", "OUT", "GETC/IN", "JSR", "nested-call", "stack-push-pop"] { need(m, &mut out, &format!("uses.{u}"), 50); }
     out
